@@ -219,7 +219,7 @@ func metaAndMdat(c *Ctx, at int) []*bnode {
 		iinf.kids = append(iinf.kids, infe(exifID, "Exif", []byte{2, 2, 2, 1, 3}[c.Rng.Intn(5)], []byte{0}))
 	}
 	if c.Rng.Intn(2) == 0 {
-		iinf.kids = append(iinf.kids, infe(7, "mime", 2, []byte("\x00application/rdf+xml\x00")))
+		iinf.kids = append(iinf.kids, infe(7, "mime", 2, [][]byte{[]byte("\x00application/rdf+xml\x00"), {0}, {}, {0, 'a'}, {0, 'a', 0}}[c.Rng.Intn(5)]))
 	}
 	c.Rng.Shuffle(len(iinf.kids), func(i, j int) { iinf.kids[i], iinf.kids[j] = iinf.kids[j], iinf.kids[i] })
 	iref := &bnode{typ: "iref", prefix: full(0), kids: []*bnode{{typ: "cdsc", payload: rbytes(c, 6)}, {typ: "thmb", payload: rbytes(c, 6)}}}
